@@ -49,6 +49,8 @@ DelivCats(m) ==
          IN (IF okStatus THEN {}
              ELSE IF o.status >= 500 \/ o.status = 0
                   THEN (IF WasFollower(m.c) THEN {"C05", "C09"} ELSE {"C09"})
+                       \* no well-formed response at all (connection dropped: the handler panicked or gave up)
+                       \cup (IF o.status = 0 THEN {"C16"} ELSE {})
                   ELSE {"C08"})
             \cup (IF ~okStatus \/ m.status \notin {200, 206} \/ creq[m.c].kind = "head" THEN {}
                   ELSE IF bodyOK /\ metaOK THEN {}
@@ -173,7 +175,7 @@ TReply ==
     /\ \E y \in 1..MaxX : IsContact(y)
     /\ LET x == CHOOSE y \in 1..MaxX : IsContact(y)
            ct == contacts[x]
-           is200 == Line.status = 200 /\ ct.kind \in {"get", "range"}
+           is200 == Line.status = 200 /\ ct.kind \in {"get", "range", "retry"}
            newlyStored == ObservedStored(ct.r) /\ ObservedVer(ct.r) = origin[ct.r].ver /\ Line.storedNew[ToString(ct.r)]
            st == IF ~is200 THEN FALSE
                  ELSE IF Storable(origin[ct.r].form) = "either" THEN newlyStored
